@@ -203,6 +203,18 @@ def check_case(case, ctx):
                                 if float(row[c]) != s:
                                     viol("levels_disagree", f"{AGG_TABLE[agg]} rows of {key} sum to {s} in {c}, state table has {row[c]}")
                                     break
+    # gaussian: interval columns sit on the row of the group they were computed for -- recompute the intervals of
+    # the level computed last (the model still holds its per-group statistics) with the C15 reference
+    if pi == "gaussian":
+        from vf.props import c15
+
+        last = [a for a in req["aggregates"] if a != "unit"]
+        if last and len(level_keys(office, last[-1])) <= 2 and AGG_TABLE[last[-1]] in tables:
+            probs = []
+            c15.reference_check(case, run, recs, last[-1], req["estimands"][-1], req["alphas"][-1], lambda kind, detail: probs.append((kind, detail)))
+            for kind, detail in probs[:1]:
+                viol("gaussian_interval_row:" + kind, detail)
+            ctx.label("gaussian_reference_checked")
     ctx.label("levels:" + str(n_levels))
     if n_levels >= 2 and mixed_group and single_source_group:
         ctx.nontrivial(common.structure_signature(case, recs), common.summarize_case(case, recs))
